@@ -49,6 +49,40 @@ def gen_molecular(rng, n_mo, eightfold=True):
     return [(t, c) for t, c in fo.terms.items() if c != 0]
 
 
+def gen_restricted_complex(rng, n_mo):
+    """COMPLEX Hermitian spin-restricted Hamiltonian (complex orbitals): h Hermitian, g with particle exchange
+    g_pqrs = g_qpsr and hermiticity g_pqrs = conj(g_srqp) only; Gaussian dyadic rationals (exact).  The pair-hopping
+    integral g[i,i,j,j] is then Hermitian in (i,j), NOT symmetric: g[j,j,i,i] = conj(g[i,i,j,j]).
+    Terms are written directly (openfermion's spinorb_from_spatial allocates real arrays)."""
+    def rc(real):
+        re = rng.randint(-8, 8) / 8
+        return complex(re, 0 if real else rng.randint(-8, 8) / 8)
+    h = {}
+    for p in range(n_mo):
+        for q in range(p, n_mo):
+            v = rc(p == q)
+            h[p, q], h[q, p] = v, v.conjugate()
+    vals, g = {}, {}
+    for p, q, r, s in itertools.product(range(n_mo), repeat=4):
+        orbit = [((p, q, r, s), False), ((q, p, s, r), False), ((s, r, q, p), True), ((r, s, p, q), True)]
+        key = min(t for t, _ in orbit)
+        flags = {f for t, f in orbit if t == key}
+        if key not in vals:
+            # an element that is its own conjugate image must be real
+            kor = [((key[1], key[0], key[3], key[2]), False), ((key[3], key[2], key[1], key[0]), True), ((key[2], key[3], key[0], key[1]), True)]
+            vals[key] = rc(any(t == key and f for t, f in kor))
+        g[p, q, r, s] = vals[key].conjugate() if flags == {True} else vals[key]
+    terms = [((), rng.randint(-4, 4) / 4)]
+    for (p, q), v in h.items():
+        for s1 in range(2):
+            terms.append((((2 * p + s1, 1), (2 * q + s1, 0)), v))
+    for (p, q, r, s), v in g.items():
+        for s1, s2 in itertools.product(range(2), repeat=2):
+            if 2 * p + s1 != 2 * q + s2 and 2 * r + s2 != 2 * s + s1:
+                terms.append((((2 * p + s1, 1), (2 * q + s2, 1), (2 * r + s2, 0), (2 * s + s1, 0)), 0.5 * v))
+    return [(t, c) for t, c in M.make_fop(terms).terms.items() if c != 0]
+
+
 def paired_dets(n_mo):
     return [d for d in range(1 << (2 * n_mo)) if all(((d >> (2 * k)) & 1) == ((d >> (2 * k + 1)) & 1) for k in range(n_mo))]
 
@@ -84,9 +118,16 @@ def hcb_oracle(ck, terms, n_mo, utd):
                      {"kind": "hcb", "case": case}, found_input=True)
         return r
     F = M.fock_matrix(terms, 2 * n_mo)
+    if np.max(np.abs(F - F.conj().T)) > 1e-12:
+        raise RuntimeError("harness generator produced a non-Hermitian Hamiltonian")
     idx = paired_dets(n_mo)
     try:
         Q = M.qubit_matrix(r[1], n_mo)
+        if np.max(np.abs(Q - Q.conj().T)) > 1e-9:
+            ck.violation("C03/HCB/non-hermitian-image/%s" % ("utd" if utd else "alt"),
+                         "the HCB image of a Hermitian Hamiltonian is not Hermitian (|Q - Q^dagger| = %.3g); case %s"
+                         % (float(np.max(np.abs(Q - Q.conj().T))), json.dumps(case)[:500]), {"kind": "hcb", "case": case}, found_input=True)
+            return r
         ok = M.spectra_equal(F[np.ix_(idx, idx)], Q)
     except ValueError:
         ok = False
@@ -145,14 +186,15 @@ def run_hcb_stream(ck):
     quick = ck.tier == "quick"
     rng = ck.rng
     ck.stream("hcb", "Hermitian spin-restricted number-/spin-conserving Hamiltonians from random dyadic tensors, half with "
-              "the 8-fold symmetry of molecular integrals, half with only hermiticity + particle exchange (4-fold: "
-              "g[i,i,j,j], g[i,j,i,j], g[i,j,j,i] independent), 1-3 (quick) / 1-4 spatial orbitals: "
+              "the 8-fold symmetry of molecular integrals, a third with only hermiticity + particle exchange (4-fold: "
+              "g[i,i,j,j], g[i,j,i,j], g[i,j,j,i] independent), a third COMPLEX Hermitian 4-fold (Gaussian dyadic; "
+              "pair hopping g[j,j,i,i] = conj g[i,i,j,j]); image must be Hermitian; 1-3 (quick) / 1-4 spatial orbitals: "
               "fermion_to_qubit_mapping(op, 'HCB') = model over the regenerated tensor-access table (exact) and "
               "spectrum on the seniority-zero space, up_then_down False and True; non-trivial = >= 2 spatial orbitals")
     cases = []
     for k in range(30 if quick else 300):
         n_mo = rng.choice([1, 2, 2, 3] if quick else [1, 2, 2, 3, 3, 4])
-        cases.append((gen_molecular(rng, n_mo, eightfold=(k % 2 == 0)), n_mo))
+        cases.append((gen_restricted_complex(rng, n_mo) if k % 3 == 2 else gen_molecular(rng, n_mo, eightfold=(k % 3 == 0)), n_mo))
     exprs, impls = [], []
     for terms, n_mo in cases:
         r = hcb_oracle(ck, terms, n_mo, False)
@@ -187,8 +229,9 @@ def run_comb_stream(ck):
               "binary64 accuracy (1e-9)")
     for _ in range(12 if quick else 120):
         n_mo = rng.choice([2, 2, 3])
-        kind = rng.choice(["mol8", "mol4", "gen"])
-        terms = M.gen_hamiltonian(rng, 2 * n_mo) if kind == "gen" else gen_molecular(rng, n_mo, eightfold=(kind == "mol8"))
+        kind = rng.choice(["mol8", "mol4", "mol4c", "gen"])
+        terms = M.gen_hamiltonian(rng, 2 * n_mo) if kind == "gen" else gen_restricted_complex(rng, n_mo) if kind == "mol4c" \
+            else gen_molecular(rng, n_mo, eightfold=(kind == "mol8"))
         terms = [(t, c) for t, c in M.make_fop(terms).terms.items()]
         secs = [(a, b) for a in range(n_mo + 1) for b in range(n_mo + 1)]
         for na, nb in (secs if not quick else rng.sample(secs, 4) + [(n_mo, n_mo)]):
